@@ -115,7 +115,7 @@ func checkTokens(mode, fn string, src []byte, start hcl.Pos, toks hclsyntax.Toke
 				if bytes.IndexByte(src[prevEnd:s], '\t') >= 0 {
 					cause = "gap-with-tab"
 				} else if prevEnd == s {
-					cause = "no-gap-before." + t.Type.String()
+					cause = "no-gap"
 				}
 			}
 			off := p.Byte - start.Byte
